@@ -1,0 +1,41 @@
+/*
+Verification hooks (compiled in only with -DPHOTON_VERIF; see /verif/DESIGN.md).
+With the guard off PHOTON_VERIF_POINT expands to nothing.
+*/
+#pragma once
+#ifdef PHOTON_VERIF
+#include <cstdint>
+namespace photon {
+namespace verif {
+    // called at every instrumented point when non-null: (point id, object, a, b)
+    typedef void (*hook_t)(int point, const void* obj, uint64_t a, uint64_t b);
+    extern hook_t hook;
+    enum point : int {
+        SPIN_ACQUIRED = 3, SPIN_RELEASED = 4, SPIN_WAIT = 2,
+        MUTEX_TRY = 10,        // obj=mutex a=success b=thread
+        MUTEX_UNLOCK = 12,     // obj=mutex a=new owner b=head waiter
+        SLEEP = 20,            // obj=thread a=waitq b=ts_wakeup
+        WAKE_TIMEOUT = 22,     // obj=thread a=now
+        WAKE_INTR = 23,        // obj=thread a=errno b=same vcpu?
+        INTR_NOSLEEP = 24,     // obj=thread a=state|(stored<<16) b=errno
+        STANDBY_DRAIN = 25,    // obj=thread
+        RESUME = 26,           // obj=thread a=ret b=errno
+        YIELD = 27,            // obj=thread
+        YIELD_RET = 28,        // obj=thread a=ret
+        CREATE = 30,           // obj=thread a=vcpu
+        DIE = 32,              // obj=thread
+        JOIN_RET = 34,         // obj=thread
+        HEAP_PUSH = 40, HEAP_POP = 41, HEAP_POP_FRONT = 42,   // obj=thread a=ts_wakeup b=result
+        HEAP_ELEM = 43,        // obj=thread a=ts_wakeup b=(idx<<32)|position
+        HEAP_END = 44,         // a=size
+        SEM_ADD = 50,          // obj=semaphore a=n b=new count
+        SEM_SUB = 51,          // obj=semaphore a=n b=success
+        SEM_RESUME = 52,       // obj=semaphore a=demand of the woken waiter b=thread
+    };
+}
+}
+#define PHOTON_VERIF_POINT(p, obj, a, b) \
+    do { if (::photon::verif::hook) ::photon::verif::hook((int)(p), (const void*)(obj), (uint64_t)(a), (uint64_t)(b)); } while (0)
+#else
+#define PHOTON_VERIF_POINT(p, obj, a, b) ((void)0)
+#endif
